@@ -161,7 +161,7 @@ Theorem C16_valid_credentials_succeed :
     let '(evs, c', r) := do_request clean parse cf c rq script in
     r <> RBad ->
     rewind_ok (rq_body rq) = true ->
-    r <> RErr ENoCred -> r <> RErr EMissing -> r <> RErr ECred ->
+    r <> RErr ENoCred -> r <> RErr EMissing -> r <> RErr ECred -> r <> RErr EShared ->
     (forall s, ~ In (s, AFail) evs) ->
     (forall s, ~ In (s, AErr) evs) ->
     (forall h a hdr, ~ In (SReg h a true, A401 hdr) evs) ->
@@ -535,7 +535,7 @@ Theorem C16_concurrent_valid_credentials_succeed :
     let '(evs, op, r) := do_request_rd clean parse cf rq osch otok1 otok2 script in
     r <> RBad ->
     rewind_ok (rq_body rq) = true ->
-    r <> RErr ENoCred -> r <> RErr EMissing -> r <> RErr ECred ->
+    r <> RErr ENoCred -> r <> RErr EMissing -> r <> RErr ECred -> r <> RErr EShared ->
     (forall s, ~ In (s, AFail) evs) ->
     (forall s, ~ In (s, AErr) evs) ->
     (forall h a hdr, ~ In (SReg h a true, A401 hdr) evs) ->
